@@ -998,30 +998,24 @@ func c08RaceLogPrefix() string {
 	return ""
 }
 
-func c08RaceFiles() []string {
-	prefix := c08RaceLogPrefix()
-	if prefix == "" {
-		return nil
-	}
-	files, _ := filepath.Glob(prefix + ".*")
-	sort.Strings(files)
-	return files
-}
+// The detector of a process writes to <log_path>.<pid>.
+func c08RaceFile(pid int) string { return fmt.Sprintf("%s.%d", c08RaceLogPrefix(), pid) }
 
-// c08RaceReports returns what the detector has written since the last call (per log file: the probe child and this
-// process write to different files).
+// c08RaceReports returns what the detector of THIS process has written since the last call.
 func c08RaceReports() string {
-	var sb strings.Builder
-	for _, f := range c08RaceFiles() {
-		if b, err := os.ReadFile(f); err == nil && len(b) > c08RaceRead[f] {
-			sb.Write(b[c08RaceRead[f]:])
-			c08RaceRead[f] = len(b)
-		}
+	if c08RaceLogPrefix() == "" {
+		return ""
 	}
-	return sb.String()
+	b, err := os.ReadFile(c08RaceFile(os.Getpid()))
+	if err != nil || len(b) <= c08RaceRead {
+		return ""
+	}
+	out := string(b[c08RaceRead:])
+	c08RaceRead = len(b)
+	return out
 }
 
-var c08RaceRead = map[string]int{}
+var c08RaceRead int
 
 // c08RaceSig names the class of a report: the first frame of the code under test (not of this harness), without the
 // method name, e.g. data-race-share.eds.closeOnce.
@@ -1052,10 +1046,10 @@ func c08RaceSig(report string) string {
 }
 
 func c08ClearRaceReports() {
-	for _, f := range c08RaceFiles() {
-		_ = os.Remove(f)
+	if c08RaceLogPrefix() != "" {
+		_ = os.Remove(c08RaceFile(os.Getpid()))
 	}
-	c08RaceRead = map[string]int{}
+	c08RaceRead = 0
 }
 
 // ---------------------------------------------------------------- script generation
@@ -1303,7 +1297,7 @@ func c08Main(t *testing.T, race bool) {
 		c08ClearRaceReports()
 		defer c08ClearRaceReports() // what they said has become violations
 		r.Set("race_detector", c08RaceEnabled)
-		r.Set("race_detector_selftest", c08RaceSelfTest(r))
+		defer c08RaceSelfTest(r)()
 	} else {
 		// several groups = several case files, which the driver evaluates in parallel
 		for i := 0; i < r.N(2, 8); i++ {
@@ -1366,27 +1360,37 @@ func c08Main(t *testing.T, race bool) {
 }
 
 // c08RaceSelfTest makes sure the race detector's verdict reaches this harness: a child process (this test binary, test
-// TestVerifC08RaceProbe) commits one data race on a variable of its own, and its report must show up in the log files
-// the harness reads after every round.  (In a child, because the testing package fails a test during which the detector
-// reported anything.)
-func c08RaceSelfTest(r *zv.Run) bool {
+// TestVerifC08RaceProbe) commits one data race on a variable of its own, and its report must show up in the log file
+// named after GORACE=log_path.  (In a child, because the testing package fails a test during which the detector
+// reported anything.)  The child runs beside the rounds; the returned function waits for it and judges.
+func c08RaceSelfTest(r *zv.Run) (finish func()) {
 	if !c08RaceEnabled || c08RaceLogPrefix() == "" {
 		r.Violation("harness-race-detector-off", "the race harness runs without the race detector or without GORACE=log_path", nil)
-		return false
+		return func() {}
 	}
+	var out bytes.Buffer
 	cmd := exec.Command(os.Args[0], "-test.run", "^TestVerifC08RaceProbe$", "-test.count", "1")
 	cmd.Env = append(os.Environ(), "VERIF_C08_RACE_PROBE=1")
-	out, _ := cmd.CombinedOutput() // the probe fails by design
-	rep := c08RaceReports()
-	if !strings.Contains(rep, "DATA RACE") || !strings.Contains(rep, "c08RaceProbe") {
-		tail := string(out)
-		if len(tail) > 600 {
-			tail = tail[len(tail)-600:]
-		}
-		r.Violation("harness-race-detector-silent", "a deliberate data race (child process) was not reported in "+c08RaceLogPrefix()+".*; output of the probe: "+tail, nil)
-		return false
+	cmd.Stdout, cmd.Stderr = &out, &out
+	if err := cmd.Start(); err != nil {
+		r.Violation("harness-race-detector-silent", "cannot start the probe: "+err.Error(), nil)
+		return func() {}
 	}
-	return true
+	return func() {
+		_ = cmd.Wait() // the probe fails by design
+		file := c08RaceFile(cmd.Process.Pid)
+		rep, _ := os.ReadFile(file)
+		_ = os.Remove(file)
+		ok := strings.Contains(string(rep), "DATA RACE") && strings.Contains(string(rep), "c08RaceProbe")
+		r.Set("race_detector_selftest", ok)
+		if !ok {
+			tail := out.String()
+			if len(tail) > 600 {
+				tail = tail[len(tail)-600:]
+			}
+			r.Violation("harness-race-detector-silent", "a deliberate data race (child process) was not reported in "+file+"; output of the probe: "+tail, nil)
+		}
+	}
 }
 
 func c08RaceProbe() int {
